@@ -61,4 +61,24 @@ Section Accounts.
   Definition loads (s : fs) : Prop :=
     forall f c, live f = true -> s !! f = Some c -> key_of c <> None.
   Definition same_accounts (s1 s2 : fs) : Prop := forall k c, holds s1 k c <-> holds s2 k c.
+
+  (* The managers address an account's file by its login (Users/<login>.yaml): [name_of].  A directory is well named
+     when every account file the loader reads is the file of the login inside it.  An update that changes the login
+     passes through ONE state that is not: the new record under the old name.  The loader finishes that move
+     (NewYAMLAccountManager: a complete record whose file is not the file of its login is renamed there when that
+     name is free), looking at each file it reads; [recover1 s f] is what it does with file f. *)
+  Variable name_of : bytes -> bytes.
+  Definition well_named (s : fs) : Prop :=
+    forall f c k, live f = true -> s !! f = Some c -> key_of c = Some k -> f = name_of k.
+  Definition recover1 (s : fs) (f : bytes) : fs :=
+    match s !! f with
+    | Some c =>
+        match key_of c with
+        | Some k =>
+            if bool_decide (f = name_of k) then s
+            else match s !! name_of k with None => <[name_of k := c]> (delete f s) | Some _ => s end
+        | None => s
+        end
+    | None => s
+    end.
 End Accounts.
